@@ -7,6 +7,7 @@ import (
 	"bytes"
 	"os"
 	"testing"
+	"time"
 
 	"pgregory.net/rapid"
 
@@ -194,6 +195,45 @@ func runCase(c Case) *ev.Failure {
 				return ev.Failf("drop: record %d has %d fields, the template has %d known elements", ri, len(r), len(known))
 			}
 		}
+		// re-announcement: the same template id again, identical except for the declared length of its
+		// first unknown element; data for the new definition must be decoded with the new length
+		for ui, uf := range c.Fields {
+			if !uf.Unknown {
+				continue
+			}
+			f2 := append([]gen.TField(nil), c.Fields...)
+			newLen := uint16(6)
+			if uf.Len == 6 {
+				newLen = ref.VarLen
+			}
+			f2[ui].Len, f2[ui].WireLen = newLen, newLen
+			view2 := gen.View(f2)
+			var recs2 [][]ref.Value
+			for _, r := range c.Recs {
+				r2 := append([]ref.Value(nil), r...)
+				b := append([]byte(nil), r[ui].B...)
+				if newLen != ref.VarLen {
+					b = append(b, 0xA1, 0xB2, 0xC3, 0xD4, 0xE5, 0xF6)[:6]
+					if len(r[ui].B) > 6 {
+						b = append([]byte(nil), r[ui].B[:6]...)
+					}
+				}
+				r2[ui] = ref.Value{B: b}
+				recs2 = append(recs2, r2)
+			}
+			if _, f := decodeOK(col, ref.TemplateMessage(ref.Header{Domain: 9, Seq: 3}, gen.Wire(256, f2)), string(mode)+": template re-announced with another length for the unknown element"); f != nil {
+				return f
+			}
+			dm2 := ref.DataMessage(ref.Header{Domain: 9, Seq: 4}, ref.Template{ID: 256, Fields: view2}, recs2)
+			m2, f := decodeOK(col, dm2, string(mode)+": data after the re-announcement")
+			if f != nil {
+				return f
+			}
+			if f := glue.CheckDataMsg(m2, view2, dm2[20:], mode); f != nil {
+				return ev.Failf("%s, after the template was re-announced with length %d instead of %d for unknown element %d/%d: %s", mode, newLen, uf.Len, uf.Ent, uf.ID, f.Msg)
+			}
+			break
+		}
 		// metamorphic: known fields as if the unknown ones were not there
 		if knownRef != nil {
 			got := knownValues(m)
@@ -209,6 +249,46 @@ func runCase(c Case) *ev.Failure {
 					if a.F.ID != b.F.ID || a.F.Ent != b.F.Ent || !glue.SameValue(a.F.Type, a.V, b.V) {
 						return ev.Failf("%s: record %d known field %d (%s) = %+v, but %+v when the unknown fields are not there", mode, ri, k, a.F.Name, a.V, b.V)
 					}
+				}
+			}
+		}
+	}
+	// the transport path: the same template, then the records as separate data messages, longest
+	// first, through the TCP connection handler; every delivered message is retained and inspected
+	// only after the whole stream was read (a field must not share memory with the read buffer)
+	if c.Proto == "tcp" {
+		for _, mode := range []collector.DecodingMode{collector.DecodingModeLenientKeepUnknown, collector.DecodingModeLenientDropUnknown} {
+			cp, err := collector.InitCollectingProcess(collector.CollectorInput{Address: "127.0.0.1:0", Protocol: "tcp", MaxBufferSize: 65535, DecodingMode: mode})
+			if err != nil {
+				return ev.Failf("InitCollectingProcess: %v", err)
+			}
+			order := make([]int, len(c.Recs))
+			for i := range order {
+				order[i] = i
+			}
+			size := func(i int) int { return len(ref.EncodeDataRecord(nil, view, c.Recs[i])) }
+			for i := 1; i < len(order); i++ {
+				for j := i; j > 0 && size(order[j]) > size(order[j-1]); j-- {
+					order[j], order[j-1] = order[j-1], order[j]
+				}
+			}
+			stream := append([]byte(nil), tm...)
+			var wires [][]byte
+			for k, ri := range order {
+				w := ref.DataMessage(ref.Header{Domain: 9, Seq: uint32(10 + k)}, ref.Template{ID: 256, Fields: view}, [][]ref.Value{c.Recs[ri]})
+				wires = append(wires, w)
+				stream = append(stream, w...)
+			}
+			got, ok := glue.ServeTCP(cp, &glue.ChunkConn{Chunks: [][]byte{stream}}, 15*time.Second)
+			if !ok {
+				return ev.Failf("%s over tcp: the connection handler did not return", mode)
+			}
+			if len(got) != 1+len(wires) {
+				return ev.Failf("%s over tcp: %d messages delivered, %d sent", mode, len(got), 1+len(wires))
+			}
+			for k, w := range wires {
+				if f := glue.CheckDataMsg(got[1+k], view, w[20:], mode); f != nil {
+					return ev.Failf("%s over tcp, message %d inspected after the whole stream was read: %s", mode, k, f.Msg)
 				}
 			}
 		}
